@@ -1,3 +1,3 @@
 SPECIFICATION Spec
-INVARIANTS ExitStatus ValidationGate FileSet Content NoLibPanicOnSuccess
+INVARIANTS ExitStatus ValidationGate FileSet Content DeviationReported NoLibPanicOnSuccess
 CHECK_DEADLOCK FALSE
